@@ -275,7 +275,7 @@ type Trace struct {
 	ParkedAtReturn         int          `json:"parked_at_return,omitempty"`
 	Output                 string       `json:"output,omitempty"`
 	OutputWrites           int          `json:"output_writes,omitempty"`
-	OutputRead             bool         `json:"output_read,omitempty"` // every Run returned: the plain writer was read
+	OutputRead             bool         `json:"output_read,omitempty"`  // every Run returned: the plain writer was read
 	InnerOutput            string       `json:"inner_output,omitempty"` // Spec.Nested: what the inner graph's own writer received
 	InnerRan               bool         `json:"inner_ran,omitempty"`
 	InnerErr               string       `json:"inner_err,omitempty"`
@@ -933,6 +933,7 @@ func Execute(spec *Spec) *Trace {
 		stableSince := time.Now()
 		var spinSig [4]uint64
 		var spinStart uint64
+		spinForce := false
 		cancelSeen := false
 	CONTROL:
 		for returned < ng {
@@ -944,21 +945,31 @@ func Execute(spec *Spec) *Trace {
 			}
 			s := atomic.LoadUint64(&h.snap)
 			tick, p, ip, sk, dn := unpack(s)
-			if s != 0 && tick != lastTick {
-				tr.IdleTicks++
-				if cancelSeen {
-					tr.TicksAfterCancel++
-				} else if atomic.LoadInt32(&r.cancelReturned) == 1 {
-					cancelSeen = true // ticks are counted from the next one on
+			forceQ := false
+			if spinForce {
+				// the scheduler loops without ever finding "nothing to do" while attempts are parked: nothing changes until
+				// one of them is released, which makes this a quiescent point like any other (counts from the loop hook)
+				spinForce, forceQ = false, true
+				_, p, ip, sk, dn = unpack(atomic.LoadUint64(&h.lsnap))
+				stable = 1
+			}
+			if (s != 0 && tick != lastTick) || forceQ {
+				if !forceQ {
+					tr.IdleTicks++
+					if cancelSeen {
+						tr.TicksAfterCancel++
+					} else if atomic.LoadInt32(&r.cancelReturned) == 1 {
+						cancelSeen = true // ticks are counted from the next one on
+					}
+					c := [4]int{p, ip, sk, dn}
+					if c == lastCounts {
+						stable++
+					} else {
+						stable = 0
+						stableSince = time.Now()
+					}
+					lastTick, lastCounts = tick, c
 				}
-				c := [4]int{p, ip, sk, dn}
-				if c == lastCounts {
-					stable++
-				} else {
-					stable = 0
-					stableSince = time.Now()
-				}
-				lastTick, lastCounts = tick, c
 				// bounded progress: every started task function has returned, nothing is parked, the scheduler idles with
 				// vertices in progress and its state has not changed for thousands of iterations and several seconds
 				if ip > 0 && stable >= 2000 && time.Since(stableSince) > 3*time.Second && atomic.LoadInt32(&r.live) == 0 {
@@ -1091,6 +1102,9 @@ func Execute(spec *Spec) *Trace {
 						abandon()
 						break
 					}
+					spinStart = loops
+				} else if loops-spinStart > spinLimit && sig[3] > 0 {
+					spinForce = true
 					spinStart = loops
 				}
 			}
